@@ -4,6 +4,11 @@ import sys
 
 
 def main(argv):
+    for st in (sys.stdout, sys.stderr):
+        try:
+            st.reconfigure(errors="backslashreplace")   # generated strings include lone surrogates
+        except Exception:
+            pass
     if len(argv) < 2:
         print(__doc__)
         return 2
